@@ -122,6 +122,23 @@ Definition check_ref_full (k : cmd * list nat * trace) : bool :=
       | _ => false
       end
   end.
+(* C01: any exits; the oracle goes on after a failed read *)
+Definition check_refX (k : cmd * list nat * trace) : bool :=
+  match k with
+  | (c, ds, obs) =>
+      match runX 4000 c renv0 (ds ++ zeros) with
+      | DoneX _ tr _ _ => trace_eqb tr obs
+      | _ => false
+      end
+  end.
+Definition check_visible_instance (k : cmd * list nat * trace) : bool :=
+  match k with
+  | (c, ds, _) =>
+      match runX 4000 c renv0 (ds ++ zeros) with
+      | DoneX _ tr _ _ => forallb (fun e => match snd e with Some _ => visible c aenv0 (fst e) | None => true end) tr
+      | _ => false
+      end
+  end.
 Definition check_ref (k : cmd * list nat * trace) : bool :=
   match k with
   | (c, ds, obs) =>
@@ -143,7 +160,7 @@ Definition check_sound_instance (k : cmd * list nat * trace) : bool :=
   end.
 '''
 
-IMPORTS = ['Model.PyCore', 'Model.Reach', 'Model.Sem', 'Proofs.ReachComplete']
+IMPORTS = ['Model.PyCore', 'Model.Reach', 'Model.Sem', 'Model.SemX', 'Proofs.ReachComplete']
 
 
 def impl_case_term(tree_body, obs):
@@ -234,6 +251,8 @@ class Oracle(object):
                 ns['_go']()
         except ns['_Stop']:
             pass
+        except tuple(ns['_E']):
+            pass                      # an uncaught generated exception ends the run
         except RecursionError as e:
             err = 'RecursionError'
         except BaseException as e:  # noqa
